@@ -641,6 +641,9 @@ class AcceptValidHeader(Accept):
         if isinstance(other, AcceptValidHeader):
             if other.header_value == "":
                 return self.__class__(header_value=self.header_value)
+            elif self.header_value == "":
+                # '' + ', ' + other would not be a valid header value
+                return self.__class__(header_value=other.header_value)
             else:
                 return create_accept_header(
                     header_value=self.header_value + ", " + other.header_value
@@ -801,6 +804,11 @@ class AcceptValidHeader(Accept):
             self.parse(value=other_header_value)
         except ValueError:  # invalid header value
             return self.__class__(header_value=instance.header_value)
+
+        if instance.header_value == "":
+            # joining '' and a header value with ', ' would not give a valid
+            # header value
+            return self.__class__(header_value=other_header_value)
 
         new_header_value = (
             (other_header_value + ", " + instance.header_value)
@@ -2938,6 +2946,9 @@ class AcceptEncodingValidHeader(AcceptEncoding):
         if isinstance(other, AcceptEncodingValidHeader):
             if other.header_value == "":
                 return self.__class__(header_value=self.header_value)
+            elif self.header_value == "":
+                # '' + ', ' + other would not be a valid header value
+                return self.__class__(header_value=other.header_value)
             else:
                 return create_accept_encoding_header(
                     header_value=self.header_value + ", " + other.header_value
@@ -3073,6 +3084,11 @@ class AcceptEncodingValidHeader(AcceptEncoding):
             self.parse(value=other_header_value)
         except ValueError:  # invalid header value
             return self.__class__(header_value=instance.header_value)
+
+        if instance.header_value == "":
+            # joining '' and a header value with ', ' would not give a valid
+            # header value
+            return self.__class__(header_value=other_header_value)
 
         new_header_value = (
             (other_header_value + ", " + instance.header_value)
